@@ -83,8 +83,8 @@ ASSUMPTIONS = [
     "belong to other properties and are only counted",
 ]
 BOUND = {
-    "quick": "n=1 x 7 one-at-a-time parameter settings; n=2 (53 origin "
-    "pairs) x 7 settings; n=3 (378 multisets, one of the 27 (file order, "
+    "quick": "n=1 x 10 one-at-a-time parameter settings (cfac, fadd, space, "
+    "memory ceiling); n=2 (53 origin pairs) x 10 settings; n=3 (378 multisets, one of the 27 (file order, "
     "first radius, second radius) blocks chosen by the seed) x defaults; ATOM/HETATM "
     "patterns for n<=2; all <=2-line header programs on 3 bases x scales "
     "{1,100} x 4 offsets x 4 layouts (+ file / CRLF door at scale 1); bulk "
